@@ -106,6 +106,8 @@ pub fn run_case(case: &Case, rc: &RunCfg) -> Outcome {
     let coll = case.get_str("coll", "tree");
     let val = case.get_str("val", "u64");
     match (case.family.as_str(), coll, val) {
+        ("key", "list", "kbig") => run_key::<WideVal<KeyExpList<crate::instr::XKey, i32, KBig>>>(case, rc),
+        ("key", _, "kbig") => run_key::<WideVal<KeyExpTree<crate::instr::XKey, i32, KBig>>>(case, rc),
         ("key", "list", _) => run_key::<KeyExpList<crate::instr::XKey, i32, u64>>(case, rc),
         ("key", _, _) => run_key::<KeyExpTree<crate::instr::XKey, i32, u64>>(case, rc),
         ("map", "tree", "big") => run_ord::<MapTree<crate::instr::MKey, crate::instr::Big>>(case, rc),
@@ -424,6 +426,12 @@ pub fn jobs(pn: u32, tier: Tier) -> Vec<Job> {
             v.push(job("key-tree-big-clear-big", random(key_clear_cases_sized(id, "tree", vec![300, 3000], 1500, 30, 100..=500), n(100, 3_000)), krule.clone(), &[]));
             for (fam, vals) in [("map", vec!["u64", "string", "wide", "big"]), ("set", vec!["u64", "bare", "string", "wide", "big"])] {
                 v.push(job(&format!("{}-tree-big-clear-big", fam), random(ord_clear_cases_sized(id, fam, "tree", vals, vec![300, 3000], 100..=500), n(100, 3_000)), rule.clone(), &[]));
+            }
+            {
+                // the same closure with 160-byte values
+                let mut e = key_enum(id, "tree", 3, 2, if q { 2 } else { 3 }, true, true, 1_500_000);
+                e.base.set("val", "kbig");
+                v.push(job("key-tree-enum-wide-values", JobKind::Enumerate { spec: e }, krule.clone(), &[]));
             }
             v.push(job("key-tree-enum", JobKind::Enumerate { spec: if q { key_enum(id, "tree", 3, 2, 3, true, true, 400_000) } else { key_enum(id, "tree", 4, 2, 3, true, true, 1_500_000) } }, krule, &[]));
         }
